@@ -297,6 +297,7 @@ pub fn run_spaces(spaces: &[Space], visit: Visitor) -> (Acc, Vec<SpaceReport>) {
                             let p = p.normalised();
                             let ctx = StateCtx { pos: &p, root: None, path: &[], space: &name, index: idx };
                             acc.states += 1;
+                            crate::bind::note_case_pos(ctx.pos);
                             visit(&ctx, acc);
                         }
                         idx += 1;
@@ -351,6 +352,7 @@ pub fn run_spaces(spaces: &[Space], visit: Visitor) -> (Acc, Vec<SpaceReport>) {
                     for i in first..=line.len() {
                         let ctx = StateCtx { pos: &positions[i], root: Some(&rootp), path: &line[..i], space: &name, index: (pi * 8 + (i - first)) as u64 };
                         acc.states += 1;
+                        crate::bind::note_case_pos(ctx.pos);
                         visit(&ctx, acc);
                     }
                 });
@@ -371,6 +373,7 @@ pub fn run_spaces(spaces: &[Space], visit: Visitor) -> (Acc, Vec<SpaceReport>) {
                 let acc = par_items(&idx, &|_, &i, acc| {
                     let ctx = StateCtx { pos: &positions[i], root: Some(&rootp), path: &line[..i], space: &name, index: i as u64 };
                     acc.states += 1;
+                    crate::bind::note_case_pos(ctx.pos);
                     visit(&ctx, acc);
                 });
                 note = format!("{} plies played (captures {}, castlings {}, promotions {}, en-passant captures {}), last position {}", line.len(), line.iter().filter(|m| m.captured != 0).count(), line.iter().filter(|m| matches!(m.kind, MvKind::CastleShort | MvKind::CastleLong)).count(), line.iter().filter(|m| m.kind == MvKind::Promotion).count(), line.iter().filter(|m| m.kind == MvKind::EnPassant).count(), positions.last().map(|p| p.fen4(false)).unwrap_or_default());
@@ -454,6 +457,7 @@ pub fn bfs(root: &Pos, depth: Option<u32>, _expand_cap: Option<u32>, space: &str
             let pos = &nodes_ref[ni as usize].pos;
             let ctx = StateCtx { pos, root: Some(root), path: &path, space, index: i as u64 };
             acc.states += 1;
+            crate::bind::note_case_pos(ctx.pos);
             visit(&ctx, acc);
             if expand {
                 let mut local = Vec::new();
@@ -573,6 +577,14 @@ pub fn run_workers(bin: &str, arglists: Vec<Vec<String>>, parallel: usize) -> Ac
                                     Err(e) => acc.errors.push(format!("worker {:?}: bad ACC line: {}", arglists[i], e)),
                                 }
                             }
+                        }
+                        // a worker that ended at a verdict it could not deliver by unwinding (see bind::abort_verdict)
+                        if let Some(rest) = text.lines().find_map(|l| l.strip_prefix("ABORT-VERDICT ")) {
+                            let mut it = rest.splitn(2, '\t');
+                            let path = it.next().unwrap_or("").to_string();
+                            let what = it.next().unwrap_or("").to_string();
+                            acc.violation(format!("abort|{}", what.chars().take(160).collect::<String>()), format!("{} [worker {:?}; artefact {}]", what, arglists[i], path), json::obj(vec![("kind", json::s("abort")), ("artefact", json::s(path))]));
+                            found = true;
                         }
                         if !found {
                             let err = String::from_utf8_lossy(&o.stderr);
